@@ -184,7 +184,7 @@ def plan(tier: str):
     else:
         progs = gen.programs(ALPHA_FULL, [1, 2, 3]) + gen.programs(ALPHA_SMALL, [4])
         details, modes = list(DETAIL_SETS), ["file", "dir"]
-    progs = list(progs) + list(SAME_FAMILY_PROGS) + list(gen.MENU_PROGS)
+    progs = list(progs) + list(SAME_FAMILY_PROGS) + list(gen.MENU_PROGS) + list(gen.LONG_PROGS)
     jobs = []
     for i, p in enumerate(sorted(set(progs))):
         if len(p) <= 2:
